@@ -757,6 +757,7 @@ def emit(root, res, st):
             'monitor_failures': s['monitor_failures'], 'outcome_distribution': s['outcomes'], 'ops_compared': s['ops'],
             'traces_validated_against_impl': s['cases'],
             'samples': res.samples or [['(no generated cases for this property)']],
+            'extra': {k: v for k, v in res.cov.items() if k != 'theorems'},
         },
         'assumptions': ['64-bit little-endian target', 'the hand-written model (coq/theories/Impl.v, Exec.v) is tied to the code by differential execution, not by proof',
                         'build_s=%s' % st.get('build_s')],
